@@ -40,7 +40,7 @@ def stats_chain(r, coin, nb, mode):
 def explore(ck):
     r = ck.rng; quick = ck.tier == 'quick'
     ck.rule = ('simplestats on chains built for: ties of both maxima inside one block and across blocks, non-monotonic timestamps incl. 0 and 2^32-1 (clamped gaps, sums beyond 2^32), all-zero values, every '
-               'script type incl. first occurrences, huge values, coinbase look-alikes, a largest transaction with over-long CompactSize encodings, ranges, heights at, next to and between the halving boundaries 210000*k and 13 440 000 (index windows starting there); every figure of the report is parsed and compared with '
+               'script type incl. first occurrences (and all of them in one range: the longest report), huge values, coinbase look-alikes, a largest transaction with over-long CompactSize encodings, ranges, heights at, next to and between the halving boundaries 210000*k and 13 440 000 (index windows starting there); every figure of the report is parsed and compared with '
                'the model (integers exactly, means as exact rationals within the printed rounding); get_mean and get_base_reward additionally through their hooks (sums around 2^32 and 2^53, every halving '
                'index 0..70), debug and release profile. Non-trivial: >= 2 blocks and >= 2 script types and (a tie for a maximum or a sum >= 2^32); distinct by case.')
     cases = []
@@ -52,6 +52,15 @@ def explore(ck):
         c = Case('st%d' % i, coin).simple_layout(blocks, start_height=0)
         if i % 4 == 3 and len(blocks) > 2: c.start = 1; c.end = r.choice([None, len(blocks) - 1])
         c.meta.update(mode=mode); cases.append(c)
+    # every script type in one range (the report is at its longest: 11 type entries), on bitcoin and on a fork coin
+    for coin in ('bitcoin', 'testnet3', 'litecoin'):
+        kinds_all = ['p2pkh', 'p2sh', 'p2pk33', 'p2pk65', 'p2wpkh', 'p2wsh', 'p2tr', 'witness_other', 'opret_small', 'multisig', 'multisig_2of3', 'random', 'unspendable', 'empty']
+        blocks = []; prev = b'\x00' * 32
+        for h in range(4):
+            txs = [coinbase_tx(h, [(50 * 10**8, gen.script_zoo(r, 'p2pkh')[1])], extra=gen.rb(r, 2))]
+            txs.append(Tx([(gen.rb(r, 32), 0, b'', 0)], [(1000 + i, gen.script_zoo(r, kd)[1]) for i, kd in enumerate(kinds_all[h::4] + kinds_all[:2])]))
+            b = Block(prev, txs, time=1300000000 + 600 * h); blocks.append(b); prev = b.hash
+        c = Case('alltypes_' + coin, coin).simple_layout(blocks); c.meta.update(mode='types'); cases.append(c)
     # height windows around halvings and the 64th halving
     for H in ([209999, 210001, 420000, 630005, 13439999, 13440000] if quick else [1, 210001, 250000, 630005, 6930001, 209999, 210000, 419999, 420000, 6929999, 6930000, 13229999, 13439999, 13440000, 13440001, 14000000]):
         blocks = stats_chain(r, 'bitcoin', 3, 'big')
@@ -74,6 +83,7 @@ def explore(ck):
                 if diffs: ck.disagreement('stats [release] on ' + c.id, '\n'.join(diffs), c, in_domain=True)
     for c in cases: ck.count('mode:' + c.meta['mode'])
     # ---- hooks: get_mean ----
+    if not run.hooks_ok(ck): return
     lists = [[], [0], [1], [2**32 - 1], [2**32 - 1, 1], [2**32 - 1] * 3, [5, 2**32 - 1, 7, 2**32 - 1, 9, 11], [2**31] * 4, [1, 2, 3, 4], [2**32 - 1] * 2100000 if not quick else [2**32 - 1] * 3000, [3] * 7]
     for _ in range(40 if quick else 400): lists.append([r.choice([0, 1, 600, 2**32 - 1, r.getrandbits(32)]) for _ in range(r.randrange(1, 40))])
     reqs = [' '.join(map(str, l)) for l in lists]
